@@ -155,3 +155,24 @@ Example c14_key_example :
   | None => False
   end.
 Proof. vm_compute. split; reflexivity. Qed.
+
+(* ---- what the loader refuses (compared with ProducerConfig.Compile on hand-written edge files on every run) ---- *)
+From GF Require Import Spec.RenderTables.
+Theorem c14_unknown_renderer_rejected : forall f cs k r,
+  In (k, r) (fRender f) -> sassoc registered_renderers r = None -> compile_fmt f cs = None.
+Proof. exact unknown_renderer_rejected. Qed.
+Print Assumptions c14_unknown_renderer_rejected.
+Theorem c14_unknown_field_rejected : forall f cs conf s,
+  configured_renderers f cs = Some conf -> In s (fFields f) -> in_remap cs s = false -> render_fn conf s = None ->
+  compile_fmt f cs = None.
+Proof. exact unknown_field_rejected. Qed.
+Print Assumptions c14_unknown_field_rejected.
+Theorem c14_unknown_key_rejected : forall f cs s,
+  In s (fKeys f) -> in_remap cs s = false -> compile_fmt f cs = None.
+Proof. exact unknown_key_rejected. Qed.
+Print Assumptions c14_unknown_key_rejected.
+(* "network" and "type" are renderer ids the code declares but does not register: a file naming them is refused *)
+Example c14_unregistered_renderers :
+  sassoc registered_renderers "network"%string = None /\ sassoc registered_renderers "type"%string = None /\
+  sassoc registered_renderers "ip"%string = Some "IPRenderer"%string.
+Proof. vm_compute. repeat split. Qed.
